@@ -112,7 +112,7 @@ def handle (op : String) (j : Json) : Except String Json := do
     let ivs ← getIvs j
     let stranded ← getBool j "stranded"
     let w ← getNat j "where"
-    let f := fun (l : List Iv) => Json.mkObj [("pts", natListList (l.map (fun iv => [iv.c, location stranded w iv])))]
+    let f := fun (l : List Iv) => Json.mkObj [("pts", intListList (l.map (fun iv => [(iv.c : Int), location stranded w iv])))]
     pure (reply (f (maskData ign ivs)) none)
   | "extract" =>
     let ivs ← getIvs j
